@@ -221,7 +221,7 @@ def run(s):
             if not {(I, J) for I in range(6) for J in range(I, 6)} <= seen:
                 return core.refuted("callsite", "vanishing-entry test not applied to every I<=J entry of the inverse", witness_id="allclose-coverage")
             return core.proved("z3", "matrix = symmetric 6x6 assembly of the supplied components (0 elsewhere), inv called on it, 21 entries stored")
-        return s.oblige("C07.compliances.assembly[%s]" % label, ob, [CAL + "Calculator._calculate_compliances"])
+        return s.oblige("C07.compliances.assembly[%s]" % label, ob, [CAL + "Calculator._calculate_compliances"], fallback=lambda: native_fields(cal))
     assembly(keys, "all 21 components")
     assembly([k for k in keys if k.voigt[0] <= 3 and k.voigt[1] <= 3 or k.voigt[0] == k.voigt[1]], "nine orthotropic components")
 
@@ -259,7 +259,7 @@ def run(s):
         def ob(name=name):
             with patched(cal, numpy=SymNumpy(), units=UnitsStub()):
                 return symnp.prove_code_equals(lambda: getattr(cal.CijVolumeBaseInterface(duck()), name), spec[name], [], tier=tier, name=name)
-        s.oblige("C07." + name, ob, [VB + name])
+        s.oblige("C07." + name, ob, [VB + name], fallback=lambda: native_fields(cal))
     s.canary("C07.canary.G_R_with_3_instead_of_4", lambda: canary_gr(cal, duck, Scomp, tier))
 
     # ---------------- 3b. Reuss <= Hill <= Voigt: Lean lemma over the formulas above, and the statement-to-code link
@@ -296,9 +296,9 @@ def run(s):
         return ob
     with patched(cal, scipy=types.SimpleNamespace(constants=types.SimpleNamespace(physical_constants={"Avogadro constant": (Sc(NA_CONST), "mol^-1", 0)},
                                                                                   Avogadro=Sc(NA_CONST), N_A=Sc(NA_CONST)))):
-        s.oblige("C07.secondary_velocities", velocity("secondary_velocities", lambda t, v: GVRH.elem((t, v))), [VB + "secondary_velocities", VB + "mass"])
+        s.oblige("C07.secondary_velocities", velocity("secondary_velocities", lambda t, v: GVRH.elem((t, v))), [VB + "secondary_velocities", VB + "mass"], fallback=lambda: native_fields(cal))
         s.oblige("C07.primary_velocities", velocity("primary_velocities", lambda t, v: KVRH.elem((t, v)) + 4 * GVRH.elem((t, v)) / 3),
-                 [VB + "primary_velocities", VB + "mass"])
+                 [VB + "primary_velocities", VB + "mass"], fallback=lambda: native_fields(cal))
     s.oblige("C07.constants", lambda: constants(cal), ["cij.util.units", "scipy.constants"], kind="finite")
     # ---------------- 5. bounded: S = C^-1, definitions and Reuss <= Hill <= Voigt on random SPD tensors (real numpy)
     bounded_spd(s, cal)
@@ -447,6 +447,23 @@ def check_fields(cal, Cm, V, cellmass, rtol=1e-7, built=None):
     if not numpy.allclose(vb.secondary_velocities, vs, rtol=1e-6) or not numpy.allclose(vb.primary_velocities, vp, rtol=1e-6):
         return "velocities differ from sqrt(G/rho), sqrt((K+4G/3)/rho) in km/s"
     return None
+
+
+def native_fields(cal):
+    """bounded fall-back of the deductive obligations: tensor definitions, inverse, ordering and SI velocities on random SPD fields with real numpy, one of them with histories"""
+    rnd = numpy.random.RandomState(17)
+    for i in range(8):
+        cond = 10 ** rnd.uniform(0.3, 6.0)
+        Cm = numpy.array([[random_spd(rnd, cond) for _ in range(3)] for _ in range(2)])
+        V = numpy.sort(rnd.uniform(200, 900, size=3))[::-1]
+        cm = float(rnd.uniform(20, 400))
+        try:
+            msg = check_fields(cal, Cm, V, cm, rtol=max(1e-7, cond * 1e-13)) or (history_fields(cal, rnd, Cm, V, cm, max(1e-7, cond * 1e-13)) if i == 0 else None)
+        except Exception as e:
+            msg = "raises %r" % (e,)
+        if msg:
+            return {"reproduced": True, "condition_number": cond, "stiffness": Cm.tolist(), "V": V.tolist(), "cellmass": cm, "observed": msg}
+    return {"reproduced": False, "evaluations": 8, "note": "8 random SPD stiffness fields (condition numbers 2..1e6): S = C^-1, tensor definitions, Reuss<=Hill<=Voigt, SI velocities; histories on one"}
 
 
 def history_fields(cal, rnd, Cm, V, cm, rt):
